@@ -123,7 +123,7 @@ func H_C10_conv_Bool() {
 	if err2 == nil {
 		t := bool(v2.(Bool))
 		vpAssert(vpImplies(t, s == "1"), "short true spellings") // "true"/"yes" are longer than the bound
-		vpAssert(vpImplies(!t, vpOr(s == "0", s == "np")), "short false spellings")
+		vpAssert(vpImplies(!t, vpOr(s == "0", s == "no")), "short false spellings (every other text of up to two bytes is refused, hunt C10 finding 9)")
 	}
 	n := vpInt32()
 	_, err3 := Conv(FmtBool, n)
@@ -229,4 +229,18 @@ func H_C10_convOneOf() {
 	default:
 		vpAssert(false, "format is one of the members")
 	}
+}
+
+// hunt C10 finding 5: the []float64 form of a decimal64 list let NaN and the infinities through
+func H_C10_conv_Decimal64List_from_floats() {
+	a, b := vpFloat64(), vpFloat64()
+	vpCover("reached")
+	v, err := Conv(FmtDecimal64List, []float64{a, b})
+	finite := vpAnd(vpAnd(a == a, a-a == 0), vpAnd(b == b, b-b == 0))
+	vpAssert((err == nil) == finite, "a list of float64 converts exactly when every element is finite")
+	if err != nil {
+		return
+	}
+	l := v.(Decimal64List)
+	vpAssert(len(l) == 2 && vpAnd(l[0] == a, l[1] == b), "elements exact")
 }
